@@ -272,8 +272,57 @@ def world_plans(draw, tier):
     return {'specs': specs, 'setup': setup, 'threads': threads, 'tape': tape, 'knobs': knobs}
 
 
+def same_named_variant(spec, uid):
+    """The same class names in the same order, another hierarchy (other class objects)."""
+    import copy
+    out = copy.deepcopy(spec)
+    out['uid'] = uid
+    earlier = []
+    for c in out['classes']:
+        if c['kind'] in ('regular', 'abstract'):
+            if c.get('base'):
+                c['base'] = None
+                c.pop('redef', None)
+            elif earlier:
+                c['base'] = earlier[-1]
+                used = {q['n'] for q in U.all_params(out, U.class_by_name(out, c['base']))}
+                c['params'] = [q for q in c.get('params', []) if q['n'] not in used]
+            earlier.append(c['name'])
+        c.pop('sav', None)
+    return out
+
+
+@st.composite
+def churn_plans(draw, tier):
+    """Functions come and go: create, use, drop, collect - over two class sets with the
+    same names - again and again (state keyed by the identity of something that dies)."""
+    sa = draw(plans.specs('s0', max_classes=4))
+    sb = same_named_variant(sa, 's1')
+    names = [c['name'] for c in sa['classes']]
+    order = list(draw(st.permutations(names)))
+    kind = draw(st.sampled_from(['load', 'load', 'load', 'dumps', 'dumps_json']))
+    ops_ = []
+    for slot, spec in ((50, sa), (51, sb)):
+        mk = {'op': 'mk', 'slot': slot, 'kind': kind, 'spec': spec['uid'], 'order': order}
+        if kind == 'load':
+            roots = plans.root_types(spec)
+            mk['root'] = roots[draw(st.integers(0, 40)) % len(roots)]
+        ops_.append(mk)
+        for i in range(draw(st.integers(1, 2))):
+            op = draw(load_ops([sa, sb], mk)) if kind == 'load' else draw(dump_ops([sa, sb], mk, {}))
+            op.pop('cancel', None)
+            op['file'] = 'cfg.c{}x{}'.format(slot, i)
+            ops_.append(op)
+        ops_.append({'op': 'drop', 'slot': slot})
+        ops_.append({'op': 'gc'})
+    knobs = {'scope': 'core', 'granularity': 'line', 'churn': True, 'retain_exc': False,
+             'repeat': draw(st.sampled_from([30, 60] if tier == 'quick' else [60, 200, 600]))}
+    return {'specs': [sa, sb], 'setup': [], 'threads': [ops_], 'tape': {'entries': [], 'tail': None},
+            'knobs': knobs}
+
+
 def plans_strategy(tier):
-    return world_plans(tier)
+    return st.one_of(*([world_plans(tier)] * 14 + [churn_plans(tier)]))
 
 
 # ---------------------------------------------------------------- C06 (history clause)
